@@ -228,9 +228,17 @@ def generic_case(col, r):
             elif act == "replace":
                 exp.append(newv)
     else:
+        # member names: ordinary ones, and names a program might mistake for something else - digits only ("2024",
+        # "0"), a star, a slash, the empty string, names of notebook parts
+        odd = ["2024", "0", "1", "10", "*", "a/b", "", "cells", "-1", "1.5", "k 1"]
         keys = ["k%d" % i for i in range(r.randrange(2, 7))]
+        if r.random() < 0.4:
+            for j in r.sample(range(len(keys)), r.randrange(1, len(keys) + 1)):
+                cand = r.choice(odd)
+                if cand not in keys:
+                    keys[j] = cand
         def val(i):
-            return r.choice([i, "s%d" % i, [i, i + 1], {"in": i}, True, 1.5])
+            return r.choice([i, "s%d" % i, [i, i + 1], {"in": i}, {"in": {"deeper": [i]}}, True, 1.5])
         if kind == "nested":
             base = {"outer": {k: val(i) for i, k in enumerate(keys)}, "other": {"x": 1}}
             tgt = lambda d: d["outer"]
@@ -247,6 +255,8 @@ def generic_case(col, r):
                 t = tgt(d)
                 if act == "delete":
                     del t[k]
+                elif act == "nested" and isinstance(t[k], dict) and isinstance(t[k].get("in"), dict):
+                    t[k]["in"]["deeper"] = t[k]["in"]["deeper"] + ["deep_" + o]
                 elif act == "nested" and isinstance(t[k], dict):
                     t[k]["added_by_" + o] = i
                 elif act == "nested" and isinstance(t[k], list):
